@@ -72,6 +72,9 @@ class C04(Check):
     PID = "C04"
     HEADER = "From Verif Require Import C04.Model."
     RUN = "run_case"
+    # the functions generated from metabolism.py by translators/c04_gen.py are run on the same histories
+    HEADER2 = "From Verif Require Import C04.Model gen.Gen_C04 C04.GenSys."
+    RUN2 = "grun_case"
     N_QUICK = 1500
     N_THOROUGH = 30000
     RULE = ("systems of 1..3 ATP_Store objects; budget/GTP/NADH capacities from small sets incl. 0, max_debt incl. 0, "
@@ -106,6 +109,18 @@ class C04(Check):
     ASSUMPTIONS = ["capacities (budget, gtp_budget, nadh_reserve) and max_debt are >= 0; every cost/amount argument is >= 0",
                    "debt_interest >= 0 (int(debt*rate) >= 0); with a negative rate `0 <= debt` is plainly false",
                    "single-threaded histories; on_state_change callback not supplied"]
+
+    def translate(self):
+        from translators import c04_gen
+        try:
+            txt = c04_gen.emit(common.REPO / "operon_ai/state/metabolism.py")
+        except Exception as e:
+            # fail closed: the stale generated file must not be mistaken for the current source
+            common.write_if_changed(common.GEN / "Gen_C04.v",
+                                    "(* translators/c04_gen.py could not translate the current source: "
+                                    + str(e).replace("*)", "* )") + " *)\nDefinition translation_failed : True := I I.\n")
+            raise
+        common.write_if_changed(common.GEN / "Gen_C04.v", txt)
 
     _hangs = 0          # histories on which the implementation did not return
     _gen_blind = False  # set when the implementation hung while steering the generator
